@@ -330,31 +330,34 @@ func genIter(r *prng.R, cs caseSpec, after int) iterSpec {
 	spans := []int64{1, 1000, maxIncr, 3 * maxIncr, windowWidth, 20 * windowWidth}
 	seeks := []string{"seek-first", "seek-last", "seek-ge", "seek-le"}
 	it.Cmds = append(it.Cmds, iterCmd{Op: prng.Pick(r, seeks), Arg: pickT()})
-	// An auto-span move that follows a time-span move without a seek in between was
-	// observed to make the *single-node* cesium iterator spin forever (a question for the
-	// cesium iterator property, and a leaked spinning goroutine here), so a seek is put
-	// between the two kinds of moves.
-	spanMoved := false
-	for i := 0; i < r.Range(5, 18); i++ {
+	// Auto-span (chunked) moves are only issued in the two shapes cesium's own suite
+	// exercises: SeekFirst followed by a run of Next(AutoSpan), and SeekLast followed by a
+	// run of Prev(AutoSpan), on unbounded iterators. Outside of these shapes the plain
+	// single-node cesium iterator was observed to recurse without bound in
+	// unary.Iterator.autoNext/autoPrev (fatal stack overflow of the whole process after
+	// some tens of seconds) - a matter for the cesium iterator property, and fatal for this
+	// process, which hosts every node.
+	unbounded := it.Lo == int64(telem.TimeStampMin) && it.Hi == int64(telem.TimeStampMax)
+	for i := 0; i < r.Range(4, 12); i++ {
 		switch x := r.Intn(100); {
 		case x < 12:
 			it.Cmds = append(it.Cmds, iterCmd{Op: prng.Pick(r, seeks), Arg: pickT()})
-			spanMoved = false
 		case x < 40:
 			it.Cmds = append(it.Cmds, iterCmd{Op: "next", Arg: prng.Pick(r, spans)})
-			spanMoved = true
 		case x < 55:
 			it.Cmds = append(it.Cmds, iterCmd{Op: "prev", Arg: prng.Pick(r, spans)})
-			spanMoved = true
 		case x < 92:
-			if spanMoved {
-				it.Cmds = append(it.Cmds, iterCmd{Op: prng.Pick(r, seeks), Arg: pickT()})
-				spanMoved = false
+			if !unbounded {
+				it.Cmds = append(it.Cmds, iterCmd{Op: "next", Arg: prng.Pick(r, spans)})
+				continue
 			}
-			if x < 80 {
-				it.Cmds = append(it.Cmds, iterCmd{Op: "next-auto"})
-			} else {
-				it.Cmds = append(it.Cmds, iterCmd{Op: "prev-auto"})
+			seek, move := "seek-first", "next-auto"
+			if x >= 78 {
+				seek, move = "seek-last", "prev-auto"
+			}
+			it.Cmds = append(it.Cmds, iterCmd{Op: seek})
+			for j := 0; j < r.Range(1, 6); j++ {
+				it.Cmds = append(it.Cmds, iterCmd{Op: move})
 			}
 		default:
 			it.Cmds = append(it.Cmds, iterCmd{Op: "valid"})
